@@ -10,17 +10,19 @@ Local Open Scope string_scope.
 
 Definition A (c:ctor) (f:option string) (x:extra) : arm := {| a_ctor := c; a_format := f; a_extra := x |}.
 
-Definition arms_with (sorted_required:bool) (set_is_array:bool) : list (string * arm) :=
+Definition arms_with (sorted_required:bool) (set_is_array:bool) (table_is_object:bool) : list (string * arm) :=
   [ ("bool", A CBool None XNone); ("datetime", A CDateTime None XNone); ("date", A CString (Some "date") XNone);
     ("string", A CString None XNone); ("string_8", A CString None XNone); ("float", A CFloat64 (Some "float") XNone);
     ("decimal", A CFloat64 (Some "double") XNone); ("int", A CInteger (Some "int64") XNone); ("uuid", A CUUID None XNone);
     ("bytes", A CBytes None XNone); ("enum", A CString None XEnum); ("map", A CObject None (XProps ReqNone false));
     ("list", A CArray None (XItems ItemsAlways)) ]
   ++ (if set_is_array then [("set", A CArray None (XItems ItemsAlways))] else [])
-  ++ [ ("tuple", A CObject None (XProps ReqNotFieldOptional sorted_required)); ("ref", A CNewSchema None XRef) ].
+  ++ [ ("tuple", A CObject None (XProps ReqNotFieldOptional sorted_required)) ]
+  ++ (if table_is_object then [("relation", A CObject None (XProps ReqNotFieldOptional sorted_required))] else [])
+  ++ [ ("ref", A CNewSchema None XRef) ].
 
 Definition tables_with (sorted:bool) (set_is_array:bool) (repaired:bool) : tables3 := {|
-  t_arms := arms_with sorted set_is_array;
+  t_arms := arms_with sorted set_is_array repaired;
   t_params_loop := if sorted then LoopSortedKeys else LoopMapOrder;
   t_responses_loop := if sorted then LoopSortedKeys else LoopMapOrder;
   t_enum_loop := if sorted then LoopSortedKeys else LoopMapOrder;
@@ -34,7 +36,7 @@ Definition tables_with (sorted:bool) (set_is_array:bool) (repaired:bool) : table
 |}.
 
 (* the repaired source (fixes C19-3: sorts; C12-1: sets are arrays; C12-3 responses always present; C12-4 `return 404`
-   keeps its status) and the source as it was found.  A response without payload type is exported with a media type that
+   keeps its status; C12-6: a !table is exported by the arm of !type) and the source as it was found.  A response without payload type is exported with a media type that
    has no schema (t_content_guarded = false): valid, and read back by the importer importer.Factory selects. *)
 Definition fixed3 : tables3 := tables_with true true true.
 Definition found3 : tables3 := tables_with false false false.
@@ -44,6 +46,16 @@ Proof. reflexivity. Qed.
 
 Lemma translator_classified_everything : unknown = [].
 Proof. reflexivity. Qed.
+
+(* syslwrapper.MapType: the kind string(s) every arm of `switch t.Type.(type)` assigns to simpleType, in source order
+   (Export/OasExport.v map_type writes these constants; a oneof case without an arm - Type_OneOf_ - keeps ""), and the
+   `Optional` of a relation attribute that is a TypeRef: not copied (pinned by TestMapPetStoreToSimpleTypes) *)
+Definition maptype_fixed : list (string * list string) :=
+  [ ("NoType", ["notype"]); ("Primitive", []); ("Enum", ["enum"]); ("Set", ["set"]); ("Sequence", ["list"]); ("List", ["list"]);
+    ("Map", ["map"]); ("TypeRef", ["ref"]); ("Tuple", ["map"; "tuple"]); ("Relation", ["relation"]) ].
+
+Lemma maptype_current : maptype_of_source = maptype_fixed /\ tabref_keeps_optional_of_source = false.
+Proof. split; reflexivity. Qed.
 
 Definition fixed2 : tables2 := {|
   t2_prims := [("NO_Primitive", ("", "object")); ("BOOL", ("", "boolean")); ("INT", ("integer", "number"));
